@@ -269,7 +269,7 @@ def main(prop, tier, seed):
     else:
         with ctx.Pool(min(8 if prove.default_procs() >= 16 else 3, max(1, len(aux)))) as apool:
             ar = apool.map_async(_aux, aux)
-            results = prove.solve_all(obs, timeout_s=timeout_s)
+            results = prove.solve_all(obs, timeout_s=timeout_s, xcheck=(48 if tier == 'thorough' else 0), seed=seed)
             try:
                 aux_res = ar.get(timeout=timeout_s * 5 + 300)
             except mp.TimeoutError:
@@ -376,6 +376,8 @@ def main(prop, tier, seed):
                        "ensures": [{"name": n, "clause": cl} for n, _, cl in c.ensures],
                        "induction_k": c.induction_k, "skipped_conjuncts": c.degraded, **c.log} for c in ctxs],
         "by_backend": by_backend, "solver_seconds": round(solver_s, 2),
+        "cvc5_crosscheck": {"sampled": sum(1 for r in results if "cvc5" in r["backend"] or "cross-check" in r["note"]),
+                            "confirmed_unsat": sum(1 for r in results if r["backend"] == "z3+cvc5" and r["result"] == "unsat")},
         "obligation_kinds": {k: sum(1 for r in results if r["kind"] == k) for k in sorted({r["kind"] for r in results})},
         "covers": {"total": covers_total, "reached": covers_hit},
         "translation_validation_cycles": cosim_cycles,
